@@ -82,6 +82,15 @@ def run_smt(job: SMT, scale=1.0):
     return res
 
 
+def selftest_jobs():
+    """Obligations proving that the CrossHair plugin patches preserve semantics (part of every check)."""
+    H = "vf.harness.selftest"
+    return [
+        CH(name="plugin_selftest_format", func=f"{H}:st_format", params=[("i", "int")], pre=["-100000 <= i <= 100000"], timeout=60, note="plugin patch: format(i,'') == str(i) for symbolic int", functions=["vf/ch_plugin.py"]),
+        CH(name="plugin_selftest_hash_set", func=f"{H}:st_hash_set", params=[("i", "int"), ("j", "int")], pre=["0 <= i <= 3", "0 <= j <= 3"], timeout=60, note="plugin patches: hash()/set()/int(obj)", functions=["vf/ch_plugin.py"]),
+    ]
+
+
 def region_pre(region, job: CH):
     """Precondition excluding a known-finding region; concrete (fixed) arguments are bound by a lambda."""
     expr = f"not ({region})"
@@ -113,7 +122,7 @@ def main(argv=None):
     seed = int(os.environ.get("VERIF_SEED", "0") or 0)
     t_start = time.time()
     mod = importlib.import_module(f"vf.props.{prop.lower()}")
-    jobs = mod.jobs(a.tier)
+    jobs = mod.jobs(a.tier) + selftest_jobs()
     if a.only:
         jobs = [j for j in jobs if re.search(a.only, j.name)]
     # shard order is permuted by the seed (the search itself is exhaustive)
